@@ -139,6 +139,8 @@ def check(an, rep, tier):
                              '(Z, p) for pivot %d at d=%d' % (k, d),
                              rv.items[0], rv.items[1])
     L.check_stab_per_step(prog, rep)
+    from .. import rules_proto as _RPZ
+    _RPZ.check_none_vs_zero(prog, rep, modules={'transformation'})
     rep.floor('O-producer', 5, 'pivot typestates')
     rep.floor('S-ret', 5, 'results')
     rep.floor('P-domain', 14, 'domain checks')
